@@ -66,4 +66,12 @@ VARIANTS = [
          edits=[dict(file=PR, old="              f'    auto lockAndData = {port.accessor_target}.CurrentClient();\\n' \\\n              '    if (lockAndData->has_value()) lockAndData->value().get().dznPort.out.' \\\n", new="              f'    auto current = {port.accessor_target}.CurrentClient();\\n' \\\n              '    if (current->has_value()) current->value().get().dznPort.out.' \\\n")]),
     dict(id='c11-selection-dereferenced-temporary', prop='C11', expect='violation', rule='C11.deliver-under-lock',
          edits=[dict(file=PR, old="              f'    auto lockAndData = {port.accessor_target}.CurrentClient();\\n' \\\n              '    if (lockAndData->has_value()) lockAndData->value().get().dznPort.out.' \\\n", new="              f'    auto& sel = *{port.accessor_target}.CurrentClient();\\n' \\\n              '    if (sel.has_value()) sel.value().get().dznPort.out.' \\\n")]),
+    # ---- member renames in the support headers: the rules find the members by type / role, not by name ------------------
+    dict(id='cxx-selector-members-renamed-ok', prop=['C04', 'C10', 'C11', 'C06'], expect='silent',
+         edits=[dict(file=MCS, old='m_clients', new='m_registeredPorts', count=9),
+                dict(file=MCS, old='m_finalConstructed', new='m_sealed', count=5),
+                dict(file=MCS, old='m_clientSelect', new='m_selection', count=2)]),
+    dict(id='cxx-mutexwrapped-members-renamed-ok', prop=['C11', 'C06'], expect='silent',
+         edits=[dict(file=MW, old='m_protectee', new='m_value', count=2),
+                dict(file=MW, old='m_mutex', new='m_guard', count=2)]),
 ]
